@@ -289,7 +289,7 @@ def read_pairs(path, enc):
 def run_c18(t, tier, res):
     from lib_guesser.omen.markov_cracker import MarkovCracker
     from lib_guesser.omen.optimizer import Optimizer
-    flavour = {"nonascii": t.chance(1, 5), "long": t.chance(1, 4)}
+    flavour = {"nonascii": t.chance(1, 5), "long": t.chance(1, 4), "large": t.chance(1, 30 if tier == "quick" else 8)}
     pws, opts = trainer.gen_list(t, flavour)
     style = t.draw(4)
     if style == 0:
@@ -304,6 +304,8 @@ def run_c18(t, tier, res):
         opts["coverage"] = 0.6
     scratch.fresh_disk()
     tr = trainer.train(pws, opts)
+    if flavour.get("large"):
+        res.stats["large_lists_trained" if tr.ok else "large_lists_not_trained"] += 1
     res.sample = {"passwords": pws[:15], "n": len(pws), "opts": opts}
     if not tr.ok:
         res.rejected = "trainer_failed"
@@ -370,10 +372,12 @@ def run_c11(t, tier, res):
     from lib_guesser.omen.optimizer import Optimizer
     from lib_scorer.omen_scorer import OmenScorer
     from lib_trainer.omen.evaluate_password import find_omen_level
-    flavour = {"nonascii": t.chance(1, 4), "nonbmp": t.chance(1, 8), "long": t.chance(1, 4)}
+    flavour = {"nonascii": t.chance(1, 4), "nonbmp": t.chance(1, 8), "long": t.chance(1, 4), "large": t.chance(1, 30 if tier == "quick" else 8)}
     pws, opts = trainer.gen_list(t, flavour)
     scratch.fresh_disk()
     tr = trainer.train(pws, opts)
+    if flavour.get("large"):
+        res.stats["large_lists_trained" if tr.ok else "large_lists_not_trained"] += 1
     res.sample = {"passwords": pws[:15], "n": len(pws), "opts": opts}
     if not tr.ok or tr.cap.omen_trainer is None:
         res.rejected = "trainer_failed"
